@@ -22,6 +22,7 @@ RULE = ("Hypothesis-generated bond graphs on 2-14 nodes without three-membered r
         "sequence; undefined torsions dropped and only they; exclusion honoured; per-term coefficients invariant under "
         "renaming and list reordering; retype/pair-coefficient tables agree with per-atom UFF types. Non-trivial = "
         "graph with >= 1 dihedral and >= 2 terms of equal type sequence listed in opposite directions; distinct by hash.")
+RULE += (" Since rounds 9-10: One bond list / array object is enumerated, relisted in place, rewired in place and enumerated after each edit; the same Atoms object is retyped three times (the drawn typing, the same types on other atoms, fewer types).")
 ASSUMPTIONS = ["expected coefficients come from the harness' own UFF formulas (mv/ref_uff.py), which C18 checks against mofun",
                "the torsion count M of a dihedral is the number of dihedrals in the list handed to the typing function "
                "that share its central bond (counted before exclusion)"]
